@@ -95,9 +95,11 @@ def run_vector(vec):
            f"{len(S['procs'])} processes, pert {vec['pert']['obj']}{vec['pert']['val']}] "
     M = float(vec["maxmag"])
     default_tol = 100 * EPS * M
-    for tolmode in ("explicit", "default"):
-        if tolmode == "default" and M == 0:
+    for tolmode in ("explicit", "default", "zero"):
+        if tolmode in ("default", "zero") and M == 0:
             continue        # all magnitudes zero: the two-component numbers have no unit to be multiples of
+        if tolmode == "zero" and "verdict_zero_tol" not in vec:
+            continue
         tol = 0.01 if tolmode == "explicit" else default_tol
         try:
             mfa = build(vec, tol / 2)
@@ -110,7 +112,7 @@ def run_vector(vec):
             root.setLevel(logging.WARNING)
             outcome = "ok"
             try:
-                mfa.check_mass_balance(tolerance=(0.01 if tolmode == "explicit" else None), raise_error=raise_error)
+                mfa.check_mass_balance(tolerance=(0.01 if tolmode == "explicit" else (0 if tolmode == "zero" else None)), raise_error=raise_error)
                 if any(r.levelno >= logging.WARNING for r in cap.records):
                     outcome = "warned"
             except ValueError:
@@ -121,7 +123,7 @@ def run_vector(vec):
                 root.removeHandler(cap)
                 root.setLevel(old_level)
             tag = desc + f"check_mass_balance(tolerance={tolmode}, raise_error={raise_error}): {{C02}} "
-            want_fail = vec["verdict"] == "fail"
+            want_fail = (vec["verdict_zero_tol"] if tolmode == "zero" else vec["verdict"]) == "fail"
             undefined_tol = tolmode == "default" and vec["anynan"]
             if outcome.startswith("crashed"):
                 problems.append(tag + f"did not complete ({outcome}); the specification says {'fail' if want_fail else 'ok'}")
